@@ -13,7 +13,7 @@ for s in $ids; do
   dwof=$(echo "$c" | sed -n '/demo WITHOUT the change/,$p' | grep -cE "^FAIL|^--- FAIL|^panic")
   t=$(tools/seedtest.sh seeded/$s $id quick --budget ${SEED_BUDGET:-400} 2>&1)
   det=false; echo "$t" | grep -q "DETECTED" && det=true
-  clauses=$(echo "$t" | grep -oE "clause=[^ ]+ site=[^ ]*" | sort -u | tr '\n' ';')
+  clauses=$(echo "$t" | grep -E "^\s+clause=" | grep -oE "clause=[^ ]+ site=[^ ]*" | sort -u | tr '\n' ';')
   echo "$s suite_identical=$suite demo_with_fail=$dw demo_without_ok=$dwo detected=$det $clauses"
   flock seeded/.lock python3 - "$s" "$suite" "$dw" "$dwo" "$dwof" "$det" "$clauses" <<'PY'
 import json,sys,os
